@@ -997,6 +997,9 @@ class TorConfig:
                     # keep tracking in-place changes to it
                     value = _ListWrapper(
                         value, functools.partial(self.mark_unsaved, real_name))
+                    # ...also while this save is pending (or if Tor
+                    # refuses it): the pending value is that same list
+                    self.unsaved[key] = value
             self.config[real_name] = value
 
         # FIXME might want to re-think this, but currently there's no
